@@ -71,6 +71,8 @@ Theorem soz_prog : soz_prog_stmt.
 Proof. exact GoFunProofs.soz_prog_correct. Qed.
 Theorem encodevarint_prog : encodevarint_prog_stmt.
 Proof. exact GoFunProofs.encodevarint_prog_correct. Qed.
+Theorem skip_prog : skip_prog_stmt.
+Proof. exact GoFunProofs.skip_prog_correct. Qed.
 Theorem options_prog : options_prog_stmt.
 Proof. exact GoFunProofs.options_prog_correct. Qed.
 Theorem child_limit : child_limit_stmt.
